@@ -136,9 +136,15 @@ def run_one(ck, prog):
         ok = False
         if len(rets) == 1:
             r = strip_casts(rets[0])
-            ok = (isinstance(r, tuple) and r[0] == "bin" and r[1] == "Gt" and isinstance(r[2], tuple) and r[2][0] == "param"
-                  and const_value(r[3]) == (1 << 64) - 1 - 4095)
-        ck.ob("C09.1", "threshold", ok, fn=f["path"], detail=f"is_syscall_error must be `res > usize::MAX - 4095`; found {show(rets[0]) if rets else None}")
+            # any spelling of  res >= 2^64 - 4095  (i.e. res in [-4095, -1] as unsigned)
+            FIRST = (1 << 64) - 4095
+            if isinstance(r, tuple) and r[0] == "bin" and r[1] in ("Gt", "Ge", "Lt", "Le"):
+                op, a, b = r[1], strip_casts(r[2]), strip_casts(r[3])
+                if isinstance(b, tuple) and b[0] == "param":       # constant on the left: flip
+                    op, a, b = {"Gt": "Lt", "Ge": "Le", "Lt": "Gt", "Le": "Ge"}[op], b, a
+                c = const_value(b) if const_value(b) is not None else fold(b)
+                ok = isinstance(a, tuple) and a[0] == "param" and ((op == "Gt" and c == FIRST - 1) or (op == "Ge" and c == FIRST))
+        ck.ob("C09.1", "threshold", ok, fn=f["path"], detail=f"is_syscall_error must be true exactly for res >= usize::MAX - 4094 (`res > usize::MAX - 4095`); found {show(rets[0]) if rets else None}")
     cf = prog.fns.get(CLASSIFIERS[1])
     if ck.anchor("C09.1", "coerce_from_register", cf):
         cctx = prog.ctx(cf)
